@@ -639,7 +639,7 @@ impl VSys
                 mutations : 0,
                 in_cmd : HashMap::new(),
                 scope_paths : None,
-                ticks_per_mutation : 1000,
+                ticks_per_mutation : 7,
             }),
         }))
     }
@@ -655,10 +655,13 @@ impl VSys
     }
 
     /* advance the clock between user actions / invocations */
+    /*  Time passes between user actions and invocations: usually a few milliseconds (scripts, editors saving and
+        building at once), sometimes seconds.  Only the order matters to the clock models. */
     pub fn tick(&self)
     {
         let mut fs = self.lock();
-        fs.disk.now += 1_000_000;
+        let r = fs.rng.next_u64();
+        fs.disk.now += if r % 5 == 0 { 1_000_000 + (r >> 8) % 3_000_000 } else { 1_500 + (r >> 8) % 4_000 };
     }
 
     pub fn take_log(&self) -> Vec<Event>
